@@ -142,6 +142,13 @@ def predicates(case, impl):
                     f"applied at the top surface, inferred from two consecutive fields, is {tf['q_applied']:.6g} W/m2; the "
                     f"boundary condition of the model (evaporation inside the vacuum window of a VISF run, insulated "
                     f"otherwise) gives {tf['q_expected']:.6g} W/m2")))
+    bf = impl.get("botflux")
+    if bf and bf.get("n") and bf["score"] > 1.0:
+        out.append(Failure(
+            clause="bottom_boundary_flux", key=f"bottom_boundary_flux|{site}|{cfg}|{bf['stage']}",
+            detail=(f"{bf['stage']} stage, reported row {bf['row']}: the heat flux applied at the bottom, inferred from two "
+                    f"consecutive fields, is {bf['q_applied']:.6g} W/m2; K_shelf*(T_shelf - T_bottom) = {bf['q_expected']:.6g} "
+                    f"W/m2 (T_bottom {bf['T_bottom']:.3f} K, T_shelf {bf['T_shelf']:.3f} K)")))
     if abs(e["jump_dH"]) > 1e-6 * max(e["jump_scale"], 1e-30):
         out.append(Failure(
             clause="nucleation_adiabatic", key=f"nucleation_adiabatic|{site}|{cfg}",
